@@ -29,8 +29,7 @@ from .common import Check, MachineryError, SPECS, run_tlc, scratch
 PROP = 'C10'
 
 DL_CFG = '''SPECIFICATION Spec
-CONSTANTS MaxLookups = %d
- SysVersions = {0, 1, 3}
+CONSTANTS SysVersions = {0, 1, 3}
  SubV = 2
  MainV = 3
 INVARIANT TypeOK
@@ -48,6 +47,10 @@ INVARIANT RepeatStable
 INVARIANT FirstResultSticks
 INVARIANT NotFoundNotCached
 INVARIANT ReadingsAgreeOutsideCorner
+INVARIANT ForcedIgnoresPersistentCache
+INVARIANT OverrideBeatsPersistentCache
+INVARIANT PersistentCacheOnlyReusesPositive
+INVARIANT FreshReadingIgnoresCache
 CHECK_DEADLOCK FALSE
 POSTCONDITION EmitSpace
 '''
@@ -89,7 +92,7 @@ def build_cases(space: T.Dict[str, T.Any], tier: str, seed: int) -> T.List[dl.Ce
     quick = tier == 'quick'
 
     def add(kind: str, cfg: T.Dict[str, T.Any], as_: T.List[T.Dict[str, T.Any]], meth: str = 'auto') -> None:
-        cases.append({'id': f'{kind}{len(cases)}', 'cfg': cfg, 'as': as_, 'meth': meth})
+        cases.append({'id': f'{kind}{len(cases)}', 'cfg': cfg, 'as': as_, 'meth': meth, 'r2': []})
 
     # single cells, each lookup repeated (RepeatStable on the implementation)
     if quick:
@@ -116,6 +119,18 @@ def build_cases(space: T.Dict[str, T.Any], tier: str, seed: int) -> T.List[dl.Ce
         while len(as_) < 3:
             as_.append(as_[-1] if rnd.random() < 0.2 else rnd.choice(valid))
         add('seq', cfg, as_)
+    # histories over ONE build directory: configure, change wrap_mode / force_fallback_for / the system, reconfigure
+    n_hist = 1100 if quick else 20000       # candidates; those whose first configuration would abort are dropped later
+    w1 = [PRE_WEIGHT[c['pre']] * (3 if c['sys'] else 1) * (1 if c['wm'] == 'forcefallback' else 2) * (1 if c['fff'] else 2)
+          for c in configs]
+    for cfg in rnd.choices(configs, weights=w1, k=n_hist):
+        as1 = [rnd.choice(valid) for _ in range(rnd.choice([1, 1, 2]))]
+        as2 = [as1[0] if rnd.random() < 0.5 else rnd.choice(valid) for _ in range(rnd.choice([1, 1, 2]))]
+        r2 = {'sys': cfg['sys'] if rnd.random() < 0.5 else rnd.choice([0, 1, 3]),
+              'wm': rnd.choice(['default', 'nofallback', 'nodownload', 'forcefallback', 'forcefallback', 'nopromote']),
+              'fff': rnd.choice([[], [], ['dep'], ['sub']]), 'as': as2}
+        add('hist', cfg, as1)
+        cases[-1]['r2'] = [r2]
     return cases
 
 
@@ -125,43 +140,76 @@ def signature(v: T.Dict[str, T.Any], c: T.Dict[str, T.Any], upto: int) -> str:
     if c.get('meth') == 'pkgconfig' and v.get('ovr', 'none') != 'none':
         # one defect, many cells: an explicit override is not seen by dependency(..., method: ...)
         return f"OverrideIgnoredWithMethodKwarg@override={v['ovr']}"
+    if v.get('run') == 2:
+        v2 = dl.second_view(c)
+        return f"{v['clause']}@{dl.cell_key(c['cfg'], c['as'])}=>reconfigure:{dl.cell_key(v2['cfg'], v2['as'][:upto])}"
     return f"{v['clause']}@{dl.cell_key(c['cfg'], c['as'][:upto])}" + ('/method=pkg-config' if c.get('meth') == 'pkgconfig' else '')
+
+
+P_FIELDS = ('id', 'cfg', 'as', 'obs', 'asked', 'r2')
+
+
+def for_predict(c: T.Dict[str, T.Any]) -> T.Dict[str, T.Any]:
+    d = {'id': c['id'], 'cfg': c['cfg'], 'as': c['as'], 'obs': [], 'asked': False,
+         'r2': [dict(x, obs=[], asked=False) for x in c['r2']]}
+    return d
 
 
 def part1(chk: Check) -> None:
     quick = chk.tier == 'quick'
-    res = run_tlc(SPECS / 'deps', 'DepLookup_MC', cfg_text=DL_CFG % 3, collect=['deplookup_space.json'],
+    res = run_tlc(SPECS / 'deps', 'DepLookup_MC', cfg_text=DL_CFG, collect=['deplookup_space.json'],
                   timeout=3600, allow_violation=False)
-    chk.add_tlc('DepLookup_MC[MaxLookups=3]', res)
+    chk.add_tlc('DepLookup_MC[lookups and re-configurations unbounded]', res)
     space = json.loads(res.collected['deplookup_space.json'])
     chk.extra['deplookup_configs'] = len(space['configs'])
     chk.extra['deplookup_argument_tuples'] = len(space['args'])
     cases = build_cases(space, chk.tier, chk.seed)
-    # lay-out information from the specification: which cases may abort the configuration, and where
-    pred, pres = tlc_trace('TraceDepLookup', cases, 'predict', ('id', 'cfg', 'as'))
+    # lay-out information from the specification: which cases may abort a configuration, and where
+    pred, pres = tlc_trace('TraceDepLookup', [for_predict(c) for c in cases], 'predict', P_FIELDS)
     chk.add_tlc('TraceDepLookup[predict]', pres, model=False)
-    abort = {p['id']: p['step'] for p in pred}
+    abort = {p['id']: p for p in pred}
+    kept = []
     for c in cases:
-        c['abort'] = abort.get(c['id'], 0)
-        if c['abort']:
+        p = abort.get(c['id'], {'step': 0, 'step2': 0})
+        c['abort'] = p['step']
+        if c['r2']:
+            if c['abort']:
+                continue          # a first configuration that fails leaves nothing to configure again
+            c['abort2'] = p['step2']
+            if c['abort2']:
+                c['r2'][0]['as'] = c['r2'][0]['as'][:c['abort2']]
+        elif c['abort']:
             c['as'] = c['as'][:c['abort']]      # nothing after an aborting lookup can be observed
-    chk.extra['deplookup_cases'] = len(cases)
-    chk.extra['deplookup_cases_predicted_to_abort'] = sum(1 for c in cases if c['abort'])
-    # batches: one wrap_mode per project
+        kept.append(c)
+    cases = kept
+    single = [c for c in cases if not c['r2']]
+    hist = [c for c in cases if c['r2']]
+    chk.extra['deplookup_cases'] = len(single)
+    chk.extra['deplookup_cases_predicted_to_abort'] = sum(1 for c in single if c['abort'])
+    chk.extra['deplookup_two_run_histories'] = len(hist)
+    # batches: one wrap_mode per project (one per configuration run for the histories)
     per_project = 60 if quick else 150
     rnd = random.Random(f'c10-layout-{chk.seed}')
     jobs = []
     by_wm: T.Dict[str, T.List[dl.Cell]] = {}
-    for c in cases:
+    for c in single:
         by_wm.setdefault(c['cfg']['wm'], []).append(c)
     for wm, cs in sorted(by_wm.items()):
         rnd.shuffle(cs)
         for n, part in enumerate(common.chunks(cs, per_project)):
             jobs.append((f'{wm}{n}', wm, list(part), chk.seed))
+    jobs2 = []
+    by_wm2: T.Dict[T.Tuple[str, str], T.List[dl.Cell]] = {}
+    for c in hist:
+        by_wm2.setdefault((c['cfg']['wm'], c['r2'][0]['wm']), []).append(c)
+    for (wm1, wm2), cs in sorted(by_wm2.items()):
+        for n, part in enumerate(common.chunks(cs, per_project)):
+            jobs2.append((f'{wm1}-{wm2}{n}', wm1, wm2, list(part), chk.seed))
     observed: T.Dict[str, T.Dict[str, T.Any]] = {}
     totals = {'setups': 0, 'unexpected_aborts': 0, 'exit_status_observed': 0, 'unobserved': 0}
     with ThreadPoolExecutor(max_workers=common.NCPU) as ex:
-        for done, stats in ex.map(dl.worker, jobs):
+        f2 = [ex.submit(dl.worker2, j) for j in jobs2]
+        for done, stats in list(ex.map(dl.worker, jobs)) + [f.result() for f in f2]:
             observed.update(done)
             for k in totals:
                 totals[k] += stats[k]
@@ -172,29 +220,40 @@ def part1(chk: Check) -> None:
         if o is None:
             continue
         c2 = dict(c)
-        c2.update({'obs': o['obs'], 'asked': o['asked'], 'main': o['main']})
+        c2.update({'obs': o['obs'], 'asked': o['asked'], 'main': o.get('main', True)})
+        if c['r2']:
+            c2['r2'] = [dict(c['r2'][0], obs=o['r2obs']['obs'], asked=o['r2obs']['asked'])] if o.get('r2obs') else []
         judged.append(c2)
     if len(judged) + totals['unobserved'] < len(cases):
         raise MachineryError(f'C10: {len(cases) - len(judged)} cases were not observed')
-    bad, jres = tlc_trace('TraceDepLookup', judged, 'judge', ('id', 'cfg', 'as', 'obs', 'asked'))
+    bad, jres = tlc_trace('TraceDepLookup', judged, 'judge', P_FIELDS)
     chk.add_tlc('TraceDepLookup[judge]', jres, model=False)
     chk.traces += len(judged)
-    chk.evaluations += sum(len(c['obs']) for c in judged)
+    chk.evaluations += sum(len(c['obs']) + sum(len(x['obs']) for x in c['r2']) for c in judged)
     by_id = {c['id']: c for c in judged}
     for c in judged:
         kinds = {o['kind'] for o in c['obs']}
-        if c['cfg']['pre'] != 'none' or any(o['sub'] != 'unconfigured' for o in c['obs']) or len(kinds) > 1 \
+        if c['r2']:
+            x = c['r2'][0]
+            if 'sys' in kinds and (x['wm'] != c['cfg']['wm'] or x['fff'] != c['cfg']['fff'] or x['sys'] != c['cfg']['sys']):
+                chk.nontriv(dl.cell_key(c['cfg'], c['as']) + '=>' + dl.cell_key(dl.second_view(c)['cfg'], x['as']))
+        elif c['cfg']['pre'] != 'none' or any(o['sub'] != 'unconfigured' for o in c['obs']) or len(kinds) > 1 \
                 or ('sub' in kinds or 'error' in kinds):
             chk.nontriv(dl.cell_key(c['cfg'], c['as']))
-    for c in judged[:: max(1, len(judged) // 4)][:4]:
-        chk.sample({'id': c['id'], 'cell': dl.cell_key(c['cfg'], c['as']), 'observed': c['obs'], 'pkgconfig_asked': c['asked'],
-                    'in_main_build_file': c['main']}, limit=10)
+    for c in (single[:: max(1, len(single) // 3)][:3] + hist[:: max(1, len(hist) // 2)][:2]):
+        c = by_id.get(c['id'])
+        if c:
+            chk.sample({'id': c['id'], 'cell': dl.cell_key(c['cfg'], c['as']), 'observed': c['obs'], 'pkgconfig_asked': c['asked'],
+                        'in_main_build_file': c['main'],
+                        'reconfigured': [{'cell': dl.cell_key(dl.second_view(c)['cfg'], x['as']), 'observed': x['obs'],
+                                          'pkgconfig_asked': x['asked']} for x in c['r2']]}, limit=10)
     for v in bad:
         c = by_id.get(v['id'], {})
-        upto = v.get('step') or len(c.get('as', []))
+        steps = c['r2'][0]['as'] if c and v.get('run') == 2 else c.get('as', [])
+        upto = v.get('step') or len(steps)
         sig = signature(v, c, upto)
         chk.violation(sig, {'part': 'deplookup', 'verdict': v, 'cfg': c.get('cfg'), 'as': c.get('as'), 'meth': c.get('meth', 'auto'),
-                            'observed': c.get('obs'), 'asked': c.get('asked'), 'seed': chk.seed})
+                            'observed': c.get('obs'), 'asked': c.get('asked'), 'r2': c.get('r2', []), 'seed': chk.seed})
     if totals['unobserved']:
         chk.assumptions.append(f"{totals['unobserved']} cells were left unobserved after repeated unexpected aborts "
                                '(each abort is itself reported)')
@@ -224,6 +283,9 @@ def main(chk: Check) -> None:
         'wrap_mode nodownload/nopromote behave like default in part 1 (subproject sources are local)',
         '"system consulted" is observed at the pkg-config process boundary and only compared one way (asked => allowed)',
         'feature-typed required:, multiple names per dependency(), native:, static:, modules: are not generated',
+        're-configuration histories: one `meson setup --reconfigure` after the first configuration, with changed wrap_mode / '
+        'force_fallback_for / system and an edited build file; a positive result of the previous run may be reused or looked up '
+        'again (both readings accepted) unless fallback is forced or the name is overridden; --wipe/--clearcache not generated',
     ]
 
 
@@ -232,20 +294,34 @@ def replay(chk: Check, data: T.Dict[str, T.Any]) -> None:
     if det.get('part') == 'wrapfetch':
         wf.replay(chk, det)
         return
-    cell = {'id': 'replay', 'cfg': det['cfg'], 'as': det['as'], 'abort': 0, 'meth': det.get('meth', 'auto')}
-    pred, _ = tlc_trace('TraceDepLookup', [cell], 'predict', ('id', 'cfg', 'as'))
-    if pred:
-        cell['abort'] = pred[0]['step']
-        cell['as'] = cell['as'][:cell['abort']]
-    done, _ = dl.worker(('replay', det['cfg']['wm'], [cell], det.get('seed', 0)))
-    o = done['replay']
-    cell.update({'obs': o['obs'], 'asked': o['asked']})
-    bad, _ = tlc_trace('TraceDepLookup', [cell], 'judge', ('id', 'cfg', 'as', 'obs', 'asked'))
+    cell: T.Dict[str, T.Any] = {'id': 'replay', 'cfg': det['cfg'], 'as': det['as'], 'abort': 0, 'meth': det.get('meth', 'auto'),
+                                'r2': [{k: x[k] for k in ('sys', 'wm', 'fff', 'as')} for x in det.get('r2', [])]}
+    pred, _ = tlc_trace('TraceDepLookup', [for_predict(cell)], 'predict', P_FIELDS)
+    seed = det.get('seed', 0)
+    if cell['r2']:
+        if pred and pred[0]['step']:
+            raise MachineryError('replay: the first configuration of the recorded history is predicted to abort')
+        cell['abort2'] = pred[0]['step2'] if pred else 0
+        if cell['abort2']:
+            cell['r2'][0]['as'] = cell['r2'][0]['as'][:cell['abort2']]
+        done, _ = dl.worker2(('replay', det['cfg']['wm'], cell['r2'][0]['wm'], [cell], seed))
+        o = done['replay']
+        cell.update({'obs': o['obs'], 'asked': o['asked']})
+        cell['r2'] = [dict(cell['r2'][0], obs=o['r2obs']['obs'], asked=o['r2obs']['asked'])] if o.get('r2obs') else []
+    else:
+        if pred:
+            cell['abort'] = pred[0]['step']
+            cell['as'] = cell['as'][:cell['abort']]
+        done, _ = dl.worker(('replay', det['cfg']['wm'], [cell], seed))
+        o = done['replay']
+        cell.update({'obs': o['obs'], 'asked': o['asked']})
+    bad, _ = tlc_trace('TraceDepLookup', [cell], 'judge', P_FIELDS)
     for v in bad:
-        upto = v.get('step') or len(cell['as'])
+        steps = cell['r2'][0]['as'] if v.get('run') == 2 and cell['r2'] else cell['as']
+        upto = v.get('step') or len(steps)
         chk.violation(signature(v, cell, upto),
                       {'part': 'deplookup', 'verdict': v, 'cfg': cell['cfg'], 'as': cell['as'], 'meth': cell['meth'],
-                       'observed': cell['obs'], 'asked': cell['asked'], 'seed': det.get('seed', 0)})
+                       'observed': cell['obs'], 'asked': cell['asked'], 'r2': cell['r2'], 'seed': seed})
 
 
 if __name__ == '__main__':
